@@ -81,6 +81,14 @@ CHECKS.update({
     ),
 })
 
+CHECKS.update({
+    "C09": dict(
+        text="(a) every sequence of <=4/5 event specifications from a 31-item pool covering all ten event kinds with hostile payloads, built through the public constructors, written and read back; (b) every string <=5/6 over 11 markup-heavy characters as attribute value, text, CDATA (splitting constructor) and comment payload; (c) the BytesStart edit machine: every sequence of <=5/6 operations (set_name, push/extend/clear/with_attributes, to_owned/borrow/into_owned) checked against a (name, attrs) model after every step; (d) ElementWriter call sequences x finishers x indent settings; (e) the async writer over a scripted AsyncWrite with every placement of <=2/3 Pending / short-write deviations must produce the sync writer's bytes",
+        note="constructor preconditions honoured (XML names, no `?>` in PI content, no double quote in Decl arguments, balanced DOCTYPE body); payload pool is fixed",
+        technique="exhaustive enumeration of event/builder-call sequences and write schedules on the real Writer/Reader against a canonical-event model",
+    ),
+})
+
 PENDING_REASON = "check not built yet (work in progress; see DESIGN.md §9 for the order of work)"
 
 ALL = ["C%02d" % i for i in range(1, 21)]
